@@ -6,6 +6,7 @@ import (
 	"math/rand"
 	"sort"
 	"sync"
+	"sync/atomic"
 	"time"
 
 	"github.com/mutagen-io/mutagen/pkg/state"
@@ -23,6 +24,8 @@ import (
 //	cancel    cancel the context of wait W
 //	terminate Terminate (Async: in its own goroutine)
 //	settle    wait for the asynchronous notify/unlock/terminate goroutines started so far
+//	collide   cancel the context of wait W and, from another goroutine at nearly the same instant, make the
+//	          change Kind (notify, unlock, terminate); First (cancel|change) gets a head start of Us microseconds
 //	join      wait (watchdog) for wait W to return
 //	sleep     Us microseconds (0: yield)
 type top struct {
@@ -33,6 +36,8 @@ type top struct {
 	N     int    `json:"n,omitempty"`
 	Async bool   `json:"async,omitempty"`
 	Us    int    `json:"us,omitempty"`
+	Kind  string `json:"kind,omitempty"`  // collide: notify, unlock, terminate
+	First string `json:"first,omitempty"` // collide: cancel or change
 }
 
 const trackerWatchdog = 6 * time.Second
@@ -60,65 +65,153 @@ func errName(err error) string {
 	case errors.Is(err, context.Canceled):
 		return "canceled"
 	}
-	return "other:" + err.Error()
+	return "other:" + asciiOnly(err.Error())
+}
+
+// tcase is one script execution on one fresh tracker. No real call is made on
+// the director goroutine: every call of the tracker or the tracking lock runs
+// in its own goroutine under a watchdog (guard); a call that does not come back
+// is recorded as not returned, the tracker is given up (dead) and the stuck
+// goroutines are leaked, so the case and the run always finish.
+type tcase struct {
+	tracker *state.Tracker
+	lock    *state.TrackingLock
+	k       clock
+	mu      sync.Mutex
+	calls   []map[string]any
+	over    atomic.Bool // a watchdog expired in this case: later ones are waited out only briefly
+	dead    atomic.Bool // a call that cannot legitimately block did not return: stop using the tracker
+}
+
+func (tc *tcase) add(m map[string]any) { tc.mu.Lock(); tc.calls = append(tc.calls, m); tc.mu.Unlock() }
+
+func (tc *tcase) watchdog() time.Duration {
+	if tc.over.Load() {
+		return 300 * time.Millisecond
+	}
+	return trackerWatchdog
+}
+
+// guard runs f in its own goroutine. If f returns, the stamps are taken
+// immediately around it; otherwise t0 is the stamp before the goroutine was
+// started, t1 the time the director gave up, and the tracker is marked dead.
+func (tc *tcase) guard(f func()) (t0, t1 int64, ok bool) {
+	var s0, s1 int64
+	done := make(chan struct{})
+	outer := tc.k.us()
+	go func() {
+		s0 = tc.k.us()
+		f()
+		s1 = tc.k.us()
+		close(done)
+	}()
+	if waitOrTimeout(done, tc.watchdog()) {
+		return s0, s1, true
+	}
+	tc.over.Store(true)
+	tc.dead.Store(true)
+	return outer, tc.k.us(), false
+}
+
+// read is WaitForChange(ctx, 0): recorded like any other wait.
+func (tc *tcase) read() (uint64, bool) {
+	var idx uint64
+	var err error
+	t0, t1, ok := tc.guard(func() { idx, err = tc.tracker.WaitForChange(context.Background(), 0) })
+	rec := map[string]any{"op": "wait", "w": -1, "prev": 0, "t0": t0, "t1": t1, "ret": ok, "idx": 0, "err": "none", "c0": -1, "c1": -1}
+	if !ok {
+		tc.add(rec)
+		return 0, false
+	}
+	rec["idx"], rec["err"] = idx, errName(err)
+	tc.add(rec)
+	return idx, true
+}
+
+func (tc *tcase) notify(n int) {
+	for i := 0; i < n && !tc.dead.Load(); i++ {
+		t0, t1, ok := tc.guard(tc.tracker.NotifyOfChange)
+		tc.add(map[string]any{"op": "notify", "t0": t0, "t1": t1, "ret": ok})
+	}
+}
+
+func (tc *tcase) unlock() {
+	if _, _, ok := tc.guard(tc.lock.Lock); !ok {
+		return
+	}
+	before, okb := tc.read()
+	t0, t1, oku := tc.guard(tc.lock.Unlock) // always try to release
+	if !oku {
+		tc.add(map[string]any{"op": "unlock", "t0": t0, "t1": t1, "ret": false, "before": before, "after": 0})
+		return
+	}
+	after, oka := tc.read()
+	if okb && oka {
+		tc.add(map[string]any{"op": "unlock", "t0": t0, "t1": t1, "ret": true, "before": before, "after": after})
+	} else { // the notification happened, the index reads around it are missing
+		tc.add(map[string]any{"op": "notify", "t0": t0, "t1": t1, "ret": true})
+	}
+}
+
+func (tc *tcase) terminate() {
+	t0, t1, ok := tc.guard(tc.tracker.Terminate)
+	tc.add(map[string]any{"op": "terminate", "t0": t0, "t1": t1, "ret": ok})
+}
+
+// spin busy-waits for about us microseconds (offsets far below the sleep granularity).
+func spin(us int) {
+	for t := time.Now(); time.Since(t) < time.Duration(us)*time.Microsecond; {
+	}
 }
 
 // trackerCase executes one script on a fresh tracker and returns the record.
 func trackerCase(script []top) map[string]any {
 	tracker := state.NewTracker()
-	lock := state.NewTrackingLock(tracker)
-	k := newClock()
-	var mu sync.Mutex
-	var calls []map[string]any
-	add := func(m map[string]any) { mu.Lock(); calls = append(calls, m); mu.Unlock() }
+	tc := &tcase{tracker: tracker, lock: state.NewTrackingLock(tracker), k: newClock()}
+	k := tc.k
+	mu := &tc.mu
 	waits := map[int]*twait{}
 	var order []*twait
 	var async []chan struct{}
-	caseOver := false
-
-	read := func() uint64 {
-		t0 := k.us()
-		idx, err := tracker.WaitForChange(context.Background(), 0)
-		t1 := k.us()
-		add(map[string]any{"op": "wait", "w": -1, "prev": 0, "t0": t0, "t1": t1, "ret": true, "idx": idx, "err": errName(err), "c0": -1, "c1": -1})
-		return idx
-	}
-	notify := func(n int) {
-		for i := 0; i < n; i++ {
-			t0 := k.us()
-			tracker.NotifyOfChange()
-			t1 := k.us()
-			add(map[string]any{"op": "notify", "t0": t0, "t1": t1})
-		}
-	}
-	unlock := func() {
-		lock.Lock()
-		before := read()
-		t0 := k.us()
-		lock.Unlock()
-		t1 := k.us()
-		after := read()
-		add(map[string]any{"op": "unlock", "t0": t0, "t1": t1, "before": before, "after": after})
-	}
-	terminate := func() {
-		t0 := k.us()
-		done := make(chan struct{})
-		go func() { tracker.Terminate(); close(done) }()
-		ok := waitOrTimeout(done, trackerWatchdog)
-		add(map[string]any{"op": "terminate", "t0": t0, "t1": k.us(), "ret": ok})
-	}
-	spawn := func(f func()) {
+	spawn := func(f func()) chan struct{} {
 		done := make(chan struct{})
 		async = append(async, done)
 		go func() { defer close(done); f() }()
+		return done
+	}
+	change := func(kind string, n int) {
+		switch kind {
+		case "unlock":
+			tc.unlock()
+		case "terminate":
+			tc.terminate()
+		default:
+			tc.notify(n)
+		}
+	}
+	cancelWait := func(w *twait) {
+		c0 := k.us()
+		w.cancel()
+		c1 := k.us()
+		mu.Lock()
+		if w.c0 < 0 {
+			w.c0, w.c1 = c0, c1
+		}
+		mu.Unlock()
 	}
 
 	for _, op := range script {
+		if tc.dead.Load() {
+			break
+		}
 		switch op.Op {
 		case "wait":
 			w := &twait{id: op.W, done: make(chan struct{}), c0: -1, c1: -1}
 			if op.Rel != "zero" {
-				cur := read()
+				cur, ok := tc.read()
+				if !ok {
+					continue
+				}
 				switch op.Rel {
 				case "cur":
 					w.prev = cur
@@ -148,34 +241,43 @@ func trackerCase(script []top) map[string]any {
 				mu.Unlock()
 				close(w.done)
 			}()
-		case "notify":
-			n := op.N
+		case "notify", "unlock", "terminate":
+			kind, n := op.Op, op.N
 			if op.Async {
-				spawn(func() { notify(n) })
+				spawn(func() { change(kind, n) })
 			} else {
-				notify(n)
-			}
-		case "unlock":
-			if op.Async {
-				spawn(unlock)
-			} else {
-				unlock()
+				change(kind, n)
 			}
 		case "cancel":
-			if w := waits[op.W]; w != nil && w.c0 < 0 {
-				c0 := k.us()
-				w.cancel()
-				c1 := k.us()
-				mu.Lock()
-				w.c0, w.c1 = c0, c1
-				mu.Unlock()
+			if w := waits[op.W]; w != nil {
+				cancelWait(w)
 			}
-		case "terminate":
-			if op.Async {
-				spawn(terminate)
-			} else {
-				terminate()
+		case "collide":
+			// cancel the context of wait W and make a change at (nearly) the same instant from another
+			// goroutine; First says which of the two goes first, Us is the head start in microseconds
+			w := waits[op.W]
+			if w == nil {
+				continue
 			}
+			start := make(chan struct{})
+			kind, first, off := op.Kind, op.First, op.Us
+			a := spawn(func() {
+				<-start
+				if first != "cancel" {
+					spin(off)
+				}
+				cancelWait(w)
+			})
+			b := spawn(func() {
+				<-start
+				if first == "cancel" {
+					spin(off)
+				}
+				change(kind, 1)
+			})
+			close(start)
+			waitOrTimeout(a, trackerWatchdog+4*time.Second)
+			waitOrTimeout(b, trackerWatchdog+4*time.Second)
 		case "settle":
 			for _, d := range async {
 				waitOrTimeout(d, trackerWatchdog+4*time.Second)
@@ -183,12 +285,10 @@ func trackerCase(script []top) map[string]any {
 			async = nil
 		case "join":
 			if w := waits[op.W]; w != nil && !w.gaveUp {
-				d := trackerWatchdog
-				if caseOver { // one overrun per case is waited out in full, later ones only briefly
-					d = 300 * time.Millisecond
-				}
-				if !waitOrTimeout(w.done, d) {
-					w.gaveUp, caseOver = true, true
+				// one overrun per case is waited out in full, later ones only briefly
+				if !waitOrTimeout(w.done, tc.watchdog()) {
+					w.gaveUp = true
+					tc.over.Store(true)
 				}
 			}
 		case "sleep":
@@ -201,6 +301,15 @@ func trackerCase(script []top) map[string]any {
 	}
 	for _, d := range async {
 		waitOrTimeout(d, trackerWatchdog+4*time.Second)
+	}
+	if tc.dead.Load() {
+		// the tracker was given up while waits may still be out: give them the time a wait gets anyway
+		// (cut short once watchdogs have expired before), so that what they did is on record
+		for _, w := range order {
+			if !w.gaveUp && !waitOrTimeout(w.done, tc.watchdog()) {
+				w.gaveUp = true
+			}
+		}
 	}
 	// assemble the wait records; a wait that has not returned is recorded as such with the give-up time
 	end := k.us()
@@ -217,17 +326,51 @@ func trackerCase(script []top) map[string]any {
 			}
 			rec["t0"], rec["t1"], rec["ret"], rec["idx"], rec["err"] = t0, end, false, 0, "none"
 		}
-		calls = append(calls, rec)
+		tc.calls = append(tc.calls, rec)
 	}
-	out := append([]map[string]any{}, calls...)
+	out := append([]map[string]any{}, tc.calls...)
 	mu.Unlock()
-	// release whatever is left
+	// release whatever is left; stuck goroutines are leaked
 	for _, w := range order {
 		w.cancel()
 	}
 	go tracker.Terminate()
 	sort.SliceStable(out, func(i, j int) bool { return out[i]["t0"].(int64) < out[j]["t0"].(int64) })
-	return map[string]any{"ev": "TrackerCase", "calls": out}
+	return map[string]any{"ev": "TrackerCase", "calls": out, "dead": tc.dead.Load()}
+}
+
+// genCollisionScript builds a case that consists of rounds of the same
+// collision: a waiter parks on the current index; then its context is cancelled
+// and, at nearly the same instant from another goroutine, the index is changed
+// (NotifyOfChange or TrackingLock.Unlock) or tracking is terminated - in both
+// orders, with head starts of 0-50 microseconds. After the collision the wait
+// has to return (its context is cancelled), so it is joined.
+func genCollisionScript(r *rand.Rand, deep bool) []top {
+	rounds := 5 + r.Intn(8)
+	if deep {
+		rounds = 8 + r.Intn(16)
+	}
+	termLast := r.Intn(5) == 0
+	var s []top
+	for i := 0; i < rounds; i++ {
+		s = append(s, top{Op: "wait", W: i, Rel: "cur"})
+		s = append(s, top{Op: "sleep", Us: []int{0, 0, 20, 50, 150, 400}[r.Intn(6)]})
+		kind := "notify"
+		if r.Intn(4) == 0 {
+			kind = "unlock"
+		}
+		if termLast && i == rounds-1 {
+			kind = "terminate"
+		}
+		first := "cancel"
+		if r.Intn(2) == 0 {
+			first = "change"
+		}
+		s = append(s, top{Op: "collide", W: i, Kind: kind, First: first, Us: []int{0, 0, 1, 2, 3, 5, 8, 12, 20, 50}[r.Intn(10)]})
+		s = append(s, top{Op: "join", W: i})
+	}
+	s = append(s, top{Op: "settle"})
+	return s
 }
 
 // genTrackerScript builds a random script. The generator keeps a simple
@@ -387,9 +530,20 @@ func runTracker(c *vlib.Ctx) error {
 	deep := argInt(c, "deep", 0) == 1
 	par := argInt(c, "par", 6)
 	scripts := make([][]top, n)
+	collisions := 0
 	for i := range scripts {
-		scripts[i] = genTrackerScript(caseRand(c.Seed, i), deep)
+		if i%2 == 1 {
+			scripts[i] = genCollisionScript(caseRand(c.Seed, i), deep)
+			for _, op := range scripts[i] {
+				if op.Op == "collide" {
+					collisions++
+				}
+			}
+		} else {
+			scripts[i] = genTrackerScript(caseRand(c.Seed, i), deep)
+		}
 	}
+	c.SetExtra("cancel_vs_change_collisions", collisions)
 	recs := parallel(n, par, func(i int) map[string]any { return trackerCase(scripts[i]) })
 	for i, rec := range recs {
 		if rec == nil {
@@ -407,7 +561,14 @@ func replayTracker(c *vlib.Ctx, begin map[string]any) error {
 		Script []top `json:"script"`
 	}
 	vlib.Decode(begin["in"], &in)
-	rec := trackerCase(in.Script)
-	emitTrackerCase(c, 0, in.Script, rec)
+	// the failing schedule is a race: run the same script repeatedly, until a watchdog expired
+	for i := 0; i < 60; i++ {
+		before := overruns.Load()
+		rec := trackerCase(in.Script)
+		emitTrackerCase(c, i, in.Script, rec)
+		if overruns.Load() > before {
+			break
+		}
+	}
 	return nil
 }
